@@ -157,3 +157,51 @@ func Verif_C08_notification_verbatim() {
 	}
 	verifCoverIf("one-byte-data", len(data) == 1)
 }
+
+// ... also while another goroutine is writing on the same connection (encode buffers must not be shared)
+func Verif_C08_notification_verbatim_with_concurrent_writer() {
+	verifEngineOnly()
+	verifNote("real peer in Established; an unknown-type message (concrete type 7, empty body) arrives while a plugin goroutine calls WriteUpdate with a 4-byte body and the keep-alive timer fires: all schedules with at most 2 delays (Write is a scheduling point between encoding and the copy onto the wire); the wire log must consist of whole frames and contain exactly one NOTIFICATION, namely (1,3,[7]) (a racing UPDATE may still follow it before the close: the property does not forbid that), and the UPDATE, if WriteUpdate returned nil, byte-exact")
+	e := newPenv(false)
+	e.p.start()
+	c := e.bring(out, stEstablished)
+	verifAssert("established", e.pl.nEstab == 1 && e.pl.writer != nil)
+	if e.pl.writer == nil {
+		return
+	}
+	c.writes = nil
+	verifDelayBound(2)
+	body := []byte{0, 0, 0, 0}
+	done := make(chan error, 1)
+	go func() { done <- e.pl.writer.WriteUpdate(body) }()
+	if f := e.p.fsms[out]; f != nil && f.keepAliveTimer != nil {
+		verifFireTimer(f.keepAliveTimer)
+	}
+	c.send(7, nil)
+	werr := <-done
+	verifQuiesce()
+	frames, whole := c04Parse(c.writes)
+	verifAssert("wire-is-whole-frames", whole)
+	nNotif, nUpd := 0, 0
+	for _, fr := range frames {
+		switch fr.typ {
+		case notificationMessageType:
+			nNotif++
+			verifAssert("notification-verbatim", len(fr.body) == 3 && fr.body[0] == NOTIF_CODE_MESSAGE_HEADER_ERR && fr.body[1] == NOTIF_SUBCODE_BAD_MESSAGE_TYPE && fr.body[2] == 7)
+		case updateMessageType:
+			nUpd++
+			verifAssert("update-verbatim", c04SameBytes(fr.body, body))
+		case keepAliveMessageType:
+			verifAssert("keepalive-empty", len(fr.body) == 0)
+		default:
+			verifAssert("no-other-frame-type", false)
+		}
+	}
+	verifAssert("exactly-one-notification", nNotif == 1)
+	if werr == nil {
+		verifAssert("nil-writeupdate-on-the-wire-once", nUpd == 1)
+	}
+	verifAssert("closed", c.closed && e.pl.nClose == 1)
+	verifCover("notification-with-concurrent-writer")
+	e.p.stop()
+}
